@@ -387,7 +387,21 @@ def check_number_ops(ctx, rep):
 
 
 # ---------------------------------------------------------------------- U7 table facts convert_to relies on
+SI_PREFIX = {"yotta": 1e24, "zetta": 1e21, "exa": 1e18, "peta": 1e15, "tera": 1e12, "giga": 1e9, "mega": 1e6, "kilo": 1e3, "hecto": 1e2, "deca": 1e1, "deka": 1e1,
+             "deci": 1e-1, "centi": 1e-2, "milli": 1e-3, "micro": 1e-6, "nano": 1e-9, "pico": 1e-12, "femto": 1e-15}
+# names whose composition is not what the words say, with the reason (reviewed one by one)
+NAME_EXCEPTIONS = {
+    "kilobyte": "binary prefix by convention (1024)", "megabyte": "binary prefix by convention", "gigabyte": "binary prefix by convention",
+    "terabyte": "binary prefix by convention", "petabyte": "binary prefix by convention",
+    "pounds_per_square_inch": "the pound of psi is pound-force, not the mass unit `pound`",
+}
+
+
 def check_table(ctx, rep):
+    """facts of the unit table the arithmetic relies on, evaluated for every unit: (a) finite non-zero scale (convert_to divides by
+    it); (b) a name made of an SI prefix and another unit's name has that unit's scale times the prefix; (c) a name `a_per_b`
+    whose parts are units has scale(a) / scale(b) and dimension dim(a) - dim(b). (b) and (c) are internal consistency of the
+    table: two entries that contradict each other cannot both be the physical conversion"""
     from rules import units as UN
 
     prog = ctx.prog
@@ -395,7 +409,7 @@ def check_table(ctx, rep):
     table.pop("UNITS", None)
     bad = []
     for name, u in sorted(table.items()):
-        sc = u.get("scale")
+        sc = u.get("scale_f")
         if sc is None or sc != sc or sc in (float("inf"), float("-inf")) or sc == 0.0:
             bad.append((name, sc))
     if bad:
@@ -403,4 +417,46 @@ def check_table(ctx, rep):
             rep.bad("R-DIM", "R-DIM:table:scale:%s" % name, table[name]["where"], "unit %s has scale %r: converting to it divides by that" % (name, sc))
     else:
         rep.ok("R-DIM", "table:scales-finite-nonzero", "-", "all %d units have a finite, non-zero scale (convert_to divides by it)" % len(table))
+    byname = {u["ids"][0]: u for u in table.values() if u["ids"]}
+
+    def lookup(x):
+        for cand in (x, x[:-1] if x.endswith("s") else None, x[:-2] if x.endswith("es") else None):
+            if cand and cand in byname:
+                return byname[cand]
+        return None
+
+    npre = nper = 0
+    for name, u in sorted(byname.items()):
+        for p, fct in SI_PREFIX.items():
+            base = byname.get(name[len(p):]) if name.startswith(p) else None
+            if base is None or base["dims"] != u["dims"] or (base["offset_f"] or 0) != 0 or (u["offset_f"] or 0) != 0 or not base["scale_f"] or not u["scale_f"]:
+                continue
+            npre += 1
+            want = base["scale_f"] * fct
+            key = "table:prefix:%s" % name
+            if abs(u["scale_f"] / want - 1) <= 1e-6:
+                rep.ok("R-DIM", key, u["where"], "%s = %s x %g" % (name, name[len(p):], fct))
+            elif name in NAME_EXCEPTIONS:
+                rep.ok("R-DIM", key, u["where"], "exception: " + NAME_EXCEPTIONS[name])
+            else:
+                rep.bad("R-DIM", "R-DIM:" + key, u["where"], "%s has scale %g but %s has %g: by its name it is %g times that unit (%g), so converting between the two is off by a factor %g" % (name, u["scale_f"], name[len(p):], base["scale_f"], fct, want, u["scale_f"] / want))
+        if "_per_" in name:
+            a, b2 = name.split("_per_", 1)
+            ua, ub = lookup(a), lookup(b2)
+            if not (ua and ub and ua["scale_f"] and ub["scale_f"] and u["scale_f"] and ua["dims"] is not None and ub["dims"] is not None and u["dims"] is not None):
+                continue
+            if (ua["offset_f"] or 0) != 0 or (ub["offset_f"] or 0) != 0:
+                continue
+            nper += 1
+            want = ua["scale_f"] / ub["scale_f"]
+            dwant = tuple(x - y for x, y in zip(ua["dims"], ub["dims"]))
+            key = "table:per:%s" % name
+            if abs(u["scale_f"] / want - 1) <= 1e-3 and dwant == u["dims"]:
+                rep.ok("R-DIM", key, u["where"], "%s = %s / %s in scale and dimension" % (name, a, b2))
+            elif name in NAME_EXCEPTIONS:
+                rep.ok("R-DIM", key, u["where"], "exception: " + NAME_EXCEPTIONS[name])
+            else:
+                rep.bad("R-DIM", "R-DIM:" + key, u["where"], "%s has scale %g / dimension %s, but %s / %s is %g / %s: the table contradicts itself, one of the conversions is not the physical one" % (name, u["scale_f"], u["dims"], a, b2, want, dwant))
+    rep.floor("units named <SI prefix><unit> compared with their base unit", npre, 70)
+    rep.floor("units named a_per_b compared with their parts", nper, 60)
     return len(table)
